@@ -92,6 +92,33 @@ fn check_graph(rep: &mut Report, net: &RefNet, g: &Graph, via: &str, replay: &dy
             }
             Err(e) => return v("incident-triplets", format!("G4 incident_triplet_ids fails at vertex {x}: {e}"), rep),
         }
+        // the same triplets against the travel direction, and both directions with the records attached: the first slot is
+        // the vertex asked for, the third the vertex at the other end of the edge
+        for (dir, adj, rev) in [(Direction::Forward, &out_adj[x], false), (Direction::Reverse, &in_adj[x], true)] {
+            let far = |e: usize| if rev { net.edges[e].src } else { net.edges[e].dst };
+            let near = |e: usize| if rev { net.edges[e].dst } else { net.edges[e].src };
+            match g.incident_triplet_ids(&VertexId(x), &dir) {
+                Ok(t) => {
+                    if sorted(t.iter().map(|(_, e, _)| e.0).collect()) != sorted(adj.clone()) || t.iter().any(|(s, e, d)| s.0 != x || near(e.0) != x || far(e.0) != d.0) {
+                        return v("incident-triplets", format!("G4 incident_triplet_ids({x}, {}) = {:?}", if rev { "reverse" } else { "forward" }, t.iter().map(|(a, e, b)| (a.0, e.0, b.0)).collect::<Vec<_>>()), rep);
+                    }
+                }
+                Err(e) => return v("incident-triplets", format!("G4 incident_triplet_ids fails at vertex {x}: {e}"), rep),
+            }
+            match g.incident_triplet_attributes(&VertexId(x), &dir) {
+                Ok(t) => {
+                    let bad = sorted(t.iter().map(|(_, e, _)| e.edge_id.0).collect()) != sorted(adj.clone())
+                        || t.iter().any(|(a, e, b)| {
+                            let id = e.edge_id.0;
+                            a.vertex_id.0 != x || b.vertex_id.0 != far(id) || e.src_vertex_id.0 != net.edges[id].src || e.dst_vertex_id.0 != net.edges[id].dst || b.x() != net.coords[far(id)].0 || b.y() != net.coords[far(id)].1 || a.x() != net.coords[x].0
+                        });
+                    if bad {
+                        return v("incident-triplet-records", format!("G4 incident_triplet_attributes({x}, {}) = {:?}", if rev { "reverse" } else { "forward" }, t.iter().map(|(a, e, b)| (a.vertex_id.0, e.edge_id.0, b.vertex_id.0)).collect::<Vec<_>>()), rep);
+                    }
+                }
+                Err(e) => return v("incident-triplet-records", format!("G4 incident_triplet_attributes fails at vertex {x}: {e}"), rep),
+            }
+        }
         match g.get_vertex(&VertexId(x)) {
             Ok(lv) => {
                 if lv.vertex_id.0 != x || lv.x() != net.coords[x].0 || lv.y() != net.coords[x].1 {
